@@ -58,6 +58,7 @@ def parse : List String → Option (Option Ev)
   | ["pdt", k] => k.toNat?.map (fun k => some (.pdt k))
   | ["yld"] => some (some .yld)
   | ["slp"] => some (some .slp)
+  | ["mac", _, _] => some (some .mac)
   | _ => none
 
 def opName : Op → String
@@ -94,6 +95,8 @@ def edge (s : St) (t : Tid) (e : Ev) : String :=
   | .dWait _, .slp => "dWait/slp"
   | .dRelock _, .mlk => "dRelock/mlk"
   | .dDone, .retD => "retD"
+  | p, .mac => match p with
+      | .dDone => "mac/teardown" | .dLocked _ => "mac/dtor-locked" | _ => "mac/in-cs"
   | p, _ => pcName p
 
 def edges : List String :=
@@ -106,7 +109,8 @@ def edges : List String :=
    "mlk/fp-some", "mlk/fp-null", "mlk/fp-threw", "mlk/fpt-some", "mlk/fpt-null", "mlk/fpt-threw",
    "pcl", "uth", "mul/cs", "mul/thrown", "ret", "exc",
    "callD", "dCalled/mlk", "dLocked/mul-empty-at-once", "dLocked/mul-emptied-meanwhile", "dLocked/mul-give-up",
-   "dLocked/mul-retry", "dWait/yld", "dWait/slp", "dRelock/mlk", "retD"]
+   "dLocked/mul-retry", "dWait/yld", "dWait/slp", "dRelock/mlk", "retD",
+   "mac/in-cs", "mac/dtor-locked", "mac/teardown"]
 
 def showMaps (m : Maps) : String := s!"objs={m.objs} tags={m.tags}"
 
@@ -115,5 +119,8 @@ def comp : Comp :=
     init := fun _ => some init,
     Aux := Unit, aux0 := (), parse := fun a _ ts => (a, parse ts), step := step, edge := edge, edges := edges,
     descr := fun s t => s!"pc={repr (s.pc t)} lock={s.lock} {showMaps s.maps} held={s.held} dead={s.dead} gone={s.gone}" }
+
+/-- the same component for client builds without the plain-access tap (sanitizer builds): no `mac` events -/
+def compNoTap : Comp := { comp with name := "soh-notap", edges := edges.filter (fun k => !k.startsWith "mac/") }
 
 end Driver.SOHD
